@@ -82,6 +82,35 @@ class Gen:
                 self.emit("dbtp %s" % v, t, "array variable")
             else:
                 self.emit("dbtp %s" % txt, t, "array literal")
+        elif x < 0.36:
+            # a hash whose values are arrays of different element types; an operation that unifies the values (a lookup
+            # with a key the hash does not have, delete, a block over the pairs) must leave every stored value as it was
+            v = self.fresh("g")
+            keys = r.sample(["a", "b", "c", "k"], r.randint(2, 3))
+            pool = [("[1]", ("Array", ["Integer"])), ('["s"]', ("Array", ["String"])), ("[1.5]", ("Array", ["Float"])),
+                    ("[:a]", ("Array", ["Symbol"])), ('[1, "s"]', ("Array", ["Integer", "String"]))]
+            vals = {k: r.choice(pool) for k in keys}
+            self.emit("%s = {%s}" % (v, ", ".join("%s: %s" % (k, vals[k][0]) for k in keys)))
+            for k in keys:
+                self.emit("dbtp %s[:%s]" % (v, k), vals[k][1], "hash lookup")
+            op = r.choice(["missing", "delete", "each", "values"])
+            if op == "missing":
+                self.emit("%s = %s[:qq]" % (self.fresh("u"), v))
+            elif op == "delete":
+                self.emit("%s = %s.delete(:qq)" % (self.fresh("u"), v))
+            elif op == "values":
+                # the arrays merge position by position: checked as one array holding every element type
+                held = []
+                for k in keys:
+                    for e in vals[k][1][1]:
+                        if e not in held:
+                            held.append(e)
+                self.emit("dbtp %s.values" % v, ("Array", [("Array", sorted(held))]), "KeyValueArray of arrays (element types as a set)")
+            else:
+                self.emit("%s.each do |%s, %s|" % (v, self.fresh("bk"), self.fresh("bv")))
+                self.emit("end")
+            for k in keys:
+                self.emit("dbtp %s[:%s]" % (v, k), vals[k][1], "hash lookup after a unifying operation")
         elif x < 0.45:
             v = self.fresh("h")
             keys = r.sample(["a", "b", "c", "k", "zz"], r.randint(1, 4))
